@@ -544,7 +544,7 @@ func init() {
 	lib.Register(&lib.Property{
 		ID:          "C05",
 		Level:       "fault_enumeration",
-		Rule:        "for each reference build (files of 0, 10, 64K-1, 64K, 128K, 3*64K+100 bytes, 9 MiB; nested dirs; symlinks incl. dangling and to a directory) every damage of the boundary list is applied alone (bit flips at first/last byte of every block, truncation to every block boundary ±1, extension inside/up to/past the last block, fill of empty files, delete, kind swaps incl. directory -> symlink to a sibling with equal child names, retarget/delete symlinks, retarget to another SPELLING of the signed destination, a +1/-2/+1 edit that keeps the block's weak hash) plus random combinations of 2-5 damages; each damaged tree is validated fail-fast and in wounds-file mode; truth = byte-wise comparison of the damaged tree with the reference; wounds are read from the .pww file by the independent decoder. Case groups: a length change plus a bit flip below both lengths in the SAME file; weak-hash-preserving edits in each of three identical consecutive blocks; a group reuses validator contexts that validated a pristine sibling build (same paths and sizes, every byte xor 0xa5, own signature) before, with damages that put the sibling's bytes into whole blocks. distinct = distinct (build, damage classes, path + boundary class of the offset)",
+		Rule:        "for each reference build (files of 0, 10, 64K-1, 64K, 128K, 3*64K+100 bytes, 9 MiB; nested dirs; symlinks incl. dangling and to a directory; a build whose files are ALL empty, total size 0) every damage of the boundary list is applied alone (bit flips at first/last byte of every block, truncation to every block boundary ±1, extension inside/up to/past the last block, fill of empty files, delete, kind swaps incl. directory -> symlink to a sibling with equal child names, retarget/delete symlinks, retarget to another SPELLING of the signed destination, a +1/-2/+1 edit that keeps the block's weak hash) plus random combinations of 2-5 damages; each damaged tree is validated fail-fast and in wounds-file mode; truth = byte-wise comparison of the damaged tree with the reference; wounds are read from the .pww file by the independent decoder. Case groups: a length change plus a bit flip below both lengths in the SAME file; weak-hash-preserving edits in each of three identical consecutive blocks; a group reuses validator contexts that validated a pristine sibling build (same paths and sizes, every byte xor 0xa5, own signature) before, with damages that put the sibling's bytes into whole blocks. distinct = distinct (build, damage classes, path + boundary class of the offset)",
 		Assumptions: []string{"a non-nil error from non-fail-fast Validate counts as 'not declared valid' and leaves the coverage clauses unevaluated for that case (counted)", "offsets at or beyond the damaged file's own length are covered by the length clause, not the per-offset clause"},
 		Cases:       c05Cases,
 		Run:         c05Run,
